@@ -40,7 +40,16 @@ META = {
             "that descends from the new root and is not under a sibling of the final block survives with the same "
             "height, payload ids, dirty bit and parent. PARTIAL: POP command execution (keystone context, SP context) "
             "is outside the model, and on the real library transparency does NOT follow from the asserted relation "
-            "preserve >= settlement alone (known finding ctx-keystone-dealloc). Direct oracle on the rebuilt library: "
+            "preserve >= settlement alone (known finding ctx-keystone-dealloc). Read sets (coq/Store/Transparent*.v): "
+            "C09_reads_within_window / C09_reads_within_window_iff - the heights an ATV check reads (containing block "
+            "down to the second previous keystone of the endorsed block) lie inside the retained window for every tip "
+            "height iff preserve >= settle + 2*ki (+1 with the final block as containing block), "
+            "C09_least_bound_tight(_tree), C09_preserve_equals_settle_refuted / _never_suffices (the finding on the "
+            "model), C09_finalize_transparent_atv_check (CheckPublicationData + AddAltEndorsement over the tree model "
+            "answer the same after finalization under that bound), C09_finalize_transparent_reads (any reader of the "
+            "read set incl. pprev links, one more preserved block), C09_payout_reads_within_window / "
+            "C09_payout_bound_tight (payoutDelay - 1 + averaging interval <= maxReorg + preserve); the score "
+            "comparison's reads are not modelled. Direct oracle on the rebuilt library: "
             "twin instances on long histories, F saving and finalizing after every step (plain instance + public "
             "finalizeBlocks(), loaded instance with automatic finalization, lazy saves, finalizeBlocks() with unsaved blocks "
             "on the active chain and right after an unsaved deep switch so that the requested and the actually "
